@@ -23,7 +23,7 @@ package sumdb
 //@ # a record is accepted only if its hash is the one the current (acceptable) head commits to
 //@ func (*Client).checkRecord
 //@   requires c != nil
-//@   modifies Client.latest, Client.latestMsg, ghost.LOCKSNAP, "map[tlog.Tile]bool", ghost.WRITTEN
+//@   modifies Client.latest, Client.latestMsg, ghost.LOCKSNAP, "map[tlog.Tile]bool", ghost.WRITTEN, "map[note.nameHash][]note.Verifier", "[]note.Verifier"
 //@   ensures [C01] authenticated: result == nil ==> AUTHREC(c.verifiers, id, string(data))
 //@   # ReadHashes needs storage indexes (non-negative): StoredHashIndex(0, id) is 0 for a negative id and exact for
 //@   # ids below 2^61; that logs stay below that size is assumed (beyond it the int64 index arithmetic wraps)
@@ -49,7 +49,7 @@ package sumdb
 //@ # (obligations head_invariant / head_advances of sync.Mutex.Unlock); a non-empty message that is accepted is a signed tree
 //@ func (*Client).mergeLatestMem
 //@   requires c != nil && c.verifiers != nil
-//@   modifies Client.latest, Client.latestMsg, ghost.LOCKSNAP, "map[tlog.Tile]bool", ghost.WRITTEN, []tlog.Hash
+//@   modifies Client.latest, Client.latestMsg, ghost.LOCKSNAP, "map[tlog.Tile]bool", ghost.WRITTEN, []tlog.Hash, "map[note.nameHash][]note.Verifier", "[]note.Verifier"
 //@   ensures [C13, C01] accepted_is_signed: err == nil && len(msg) != 0 ==> (exists t tlog.Tree :: SIGNEDTREE(c.verifiers, string(msg), t))
 //@   # the when result places msg relative to the head held in memory (returns in source order): the empty message is
 //@   # "now" exactly while no head is held; a signed head is past / now / future by its size against the head it was
@@ -66,7 +66,7 @@ package sumdb
 //@ # the configuration file is only ever rewritten with an acceptable head read under the lock
 //@ func (*Client).mergeLatest
 //@   requires c != nil && c.verifiers != nil
-//@   modifies Client.latest, Client.latestMsg, ghost.LOCKSNAP, "map[tlog.Tile]bool", ghost.WRITTEN, []tlog.Hash
+//@   modifies Client.latest, Client.latestMsg, ghost.LOCKSNAP, "map[tlog.Tile]bool", ghost.WRITTEN, []tlog.Hash, "map[note.nameHash][]note.Verifier", "[]note.Verifier"
 //@   call ClientOps.WriteConfig requires [C13, C01] config_is_head: HEAD(c.verifiers, LOCKSNAP[c], string(arg_new))
 //@   loop 0:
 //@     invariant c != nil
@@ -75,7 +75,7 @@ package sumdb
 //@ # the lookup cache is only written with a response whose record was authenticated against an acceptable head
 //@ func (*Client).Lookup$2
 //@   requires c != nil && c.verifiers != nil
-//@   modifies Client.latest, Client.latestMsg, ghost.LOCKSNAP, "map[tlog.Tile]bool", ghost.WRITTEN, []tlog.Hash
+//@   modifies Client.latest, Client.latestMsg, ghost.LOCKSNAP, "map[tlog.Tile]bool", ghost.WRITTEN, []tlog.Hash, "map[note.nameHash][]note.Verifier", "[]note.Verifier"
 //@   call ClientOps.WriteCache requires [C01] cache_authenticated: RECORDOK(c.verifiers, string(arg_data))
 //@   # what the closure hands back to Lookup as data is a response whose record was authenticated, from cache or network alike
 //@   ensures [C01] returned_authenticated: typeof(result) == typeid("cached") && (unbox(result, "cached").err == nil ==> RECORDOK(c.verifiers, string(unbox(result, "cached").data)))
@@ -111,7 +111,7 @@ package sumdb
 //@ # SaveTiles writes only tiles it was handed (authenticated by its caller, tlog's ReadHashes: C10), under their own names
 //@ func (*tileReader).SaveTiles
 //@   requires r != nil && r.c != nil && r.c.tileSaved != nil && len(data) == len(tiles)
-//@   modifies "map[tlog.Tile]bool", Client.latest, Client.latestMsg, ghost.LOCKSNAP
+//@   modifies "map[tlog.Tile]bool", Client.latest, Client.latestMsg, ghost.LOCKSNAP, "map[note.nameHash][]note.Verifier", "[]note.Verifier"
 //@   allocates
 //@   call ClientOps.WriteCache requires [C01] saves_only_given_tiles: exists k int :: 0 <= k && k < len(tiles) && arg_data == data[k] && arg_file == r.c.name + "/" + tiles[k].Path()
 //@   loop 0:
